@@ -2,7 +2,7 @@
 
 A library whose results depend on how much real time passes between calls (inter-octet time-outs, stale-state expiry) is
 indistinguishable from a correct one for a campaign that feeds its chunks back to back. `install()` wraps time.monotonic
-and time.time (before the library is imported) so that `jump(seconds)` moves all of them forward at once;
+time.time, time.perf_counter and their _ns variants (before the library is imported) so that `jump(seconds)` moves all of them forward at once;
 `tick()` is called by the monitors between calls and jumps on a deterministic schedule.
 """
 from __future__ import annotations
@@ -21,7 +21,7 @@ def install() -> None:
     if _installed:
         return
     _installed = True
-    for name in ("monotonic", "time"):
+    for name in ("monotonic", "time", "perf_counter"):
         real = getattr(time, name)
         _real[name] = real
 
@@ -31,8 +31,16 @@ def install() -> None:
         wrapped.__name__ = wrapped.__qualname__ = name
         wrapped.__module__ = "time"
         setattr(time, name, wrapped)
-    real_ns = time.monotonic_ns
-    time.monotonic_ns = lambda: real_ns() + int(_offset * 1e9)
+    for name in ("monotonic_ns", "time_ns", "perf_counter_ns"):
+        real_ns = getattr(time, name)
+        _real[name] = real_ns
+
+        def wrapped_ns(_r=real_ns):
+            return _r() + int(_offset * 1e9)
+
+        wrapped_ns.__name__ = wrapped_ns.__qualname__ = name
+        wrapped_ns.__module__ = "time"
+        setattr(time, name, wrapped_ns)
 
 
 def jump(seconds: float) -> None:
